@@ -27,7 +27,7 @@ Merge(n, o) == [k \in DOMAIN n |-> IF n[k] # 0 THEN n[k] ELSE o[k]]
 \* string and 4 = one two-byte UTF-8 character
 RECURSIVE MetaBytes(_, _)
 MetaBytes(m, D) == IF D = {} THEN 0 ELSE LET k == CHOOSE x \in D : TRUE
-                   IN (IF m[k] = 0 THEN 0 ELSE IF m[k] = 3 THEN 1 ELSE IF m[k] = 4 THEN 3 ELSE 2) + MetaBytes(m, D \ {k})
+                   IN (IF m[k] = 0 THEN 0 ELSE IF m[k] = 3 THEN 1 ELSE IF m[k] = 4 THEN 3 ELSE IF m[k] = 5 THEN 65537 ELSE 2) + MetaBytes(m, D \ {k})
 ItemBytes(m) == 16 + 4 * cfg.dim + MetaBytes(m, DOMAIN m)
 Drop(f, x) == [y \in DOMAIN f \ {x} |-> f[y]]
 Put(f, x, v) == [y \in DOMAIN f \cup {x} |-> IF y = x THEN v ELSE f[y]]
